@@ -134,8 +134,8 @@ func errText(r host.Result) string {
 		return "<ok>"
 	}
 	s := r.Err.Error()
-	if len(s) > 900 {
-		s = s[:900] + "…"
+	if len(s) > 1500 {
+		s = s[:300] + " … " + s[len(s)-1100:]
 	}
 	return s
 }
